@@ -35,6 +35,9 @@ def run(chk: Check):
     c2 = (0.8, 0.1, 0.6, 3, 0.05)
     traces += D.engine_traces(["rw", "mh_on", "mh_off"], c1, D.SCHEDULES[0], chains=2, seed=chk.seed)
     traces += D.engine_traces(["iwls"], c2, D.SCHEDULES[1], chains=2, seed=chk.seed + 1)
+    # kernels configured after construction through their public da_* attributes
+    traces += D.engine_traces(["rw", "mh_on"], c2, D.SCHEDULES[2], chains=1, seed=chk.seed + 12, late=True)
+    traces += D.engine_traces(["iwls"], c1, D.SCHEDULES[2], chains=1, seed=chk.seed + 13, late=True)
     # epochs sampled in several chunks; a random walk on a parameter with bounded support (NaN ratios -> acceptance 0)
     traces += D.engine_traces(["rw", "rw_support"], c1, D.SCHEDULES[3], chains=2, seed=chk.seed + 8)
     if not chk.quick:
